@@ -880,6 +880,11 @@ impl C21 {
                         Made::None
                     } else {
                         let (k, mm) = masks[pick(*m, masks.len())].clone();
+                        if lists_conflict(&[&k]) {
+                            // negating allow-minus-block subtracts the lists: would materialise a full fragment
+                            obs.label("skipped-materialize");
+                            continue;
+                        }
                         shapes.insert(shape(&k));
                         Made::Mask(!k, mm.not().canon())
                     }
